@@ -158,3 +158,52 @@ def regressions():
     st += [("quiesce",), ("eof", 0), ("eof", 1), ("quiesce",)]
     out.append(Scenario(st, variant="small", name="F12-index-full-rollback"))
     return out
+
+
+def long_ids():
+    """two in-flight requests at one owner whose (long) ids agree in their first 70 characters, answered in both orders"""
+    out = []
+    base = "L" * 70
+    for same_caller in (True, False):
+        for order in ((0, 1), (1, 0)):
+            c2 = 1 if same_caller else 2
+            st = [("connect", 0, "raw", "local6"), ("connect", 1, "ws", "remote6"), ("connect", 2, "raw", "remote6"),
+                  ("msg", 0, obj(method="add", params=obj(path="s", value=1), id=1)),
+                  ("msg", 1, obj(method="set", params=obj(path="s", value="first"), id=base + "aaaa")),
+                  ("msg", c2, obj(method="set", params=obj(path="s", value="second"), id=base + "bbbb")),
+                  ("quiesce",),
+                  ("reply", 0, order[0], "result", "answer-%d" % order[0]),
+                  ("reply", 0, order[1], "result", "answer-%d" % order[1]),
+                  ("quiesce",), ("eof", 0), ("eof", 1), ("eof", 2), ("quiesce",)]
+            out.append(Scenario(st, name="long-ids-%s-%d%d" % ("same" if same_caller else "two", order[0], order[1])))
+    return out
+
+
+def reauth():
+    """one connection authenticates as several users in turn; rights must be those of the LAST successful authenticate"""
+    out = []
+    allg = ["g0", "g1"]
+    users = [
+        {"name": "root", "password": "toor!pw", "auth": obj(fetchGroups=allg, setGroups=allg, callGroups=allg), "readonly": False, "admin": True},
+        {"name": "fetchonly", "password": "fetch-pw", "auth": obj(fetchGroups=allg), "readonly": False, "admin": False},
+        {"name": "setter", "password": "setter-pw", "auth": obj(setGroups=["g1"]), "readonly": False, "admin": False},
+        {"name": "nothing", "password": "nothing-pw", "auth": obj(), "readonly": False, "admin": False},
+    ]
+    pw = {u["name"]: u["password"] for u in users}
+    for seq in (["root", "fetchonly"], ["root", "setter"], ["root", "nothing"], ["fetchonly", "setter"], ["setter", "fetchonly"], ["root", "root", "nothing"]):
+        st = [("connect", 0, "raw", "local6"), ("connect", 1, "ws", "remote6"),
+              ("msg", 0, obj(method="authenticate", params=obj(user="root", password=pw["root"]), id=1)),
+              ("msg", 0, obj(method="add", params=obj(path="s", value=1, access=obj(fetchGroups=["g0"], setGroups=["g1"])), id=2)),
+              ("msg", 0, obj(method="add", params=obj(path="m", access=obj(fetchGroups=["g1"], callGroups=["g0"])), id=3))]
+        n = 10
+        for u in seq:
+            st.append(("msg", 1, obj(method="authenticate", params=obj(user=u, password=pw[u]), id=n)))
+            n += 1
+        st += [("msg", 1, obj(method="get", params=obj(), id=n)),
+               ("msg", 1, obj(method="set", params=obj(path="s", value=2), id=n + 1)),
+               ("msg", 1, obj(method="call", params=obj(path="m"), id=n + 2)),
+               ("msg", 1, obj(method="fetch", params=obj(id="f"), id=n + 3)),
+               ("msg", 0, obj(method="change", params=obj(path="s", value=3), id=4)),
+               ("quiesce",), ("eof", 1), ("eof", 0), ("quiesce",)]
+        out.append(Scenario(st, users=users, name="reauth-" + "-".join(seq)))
+    return out
